@@ -1,3 +1,4 @@
+import os
 #!/usr/bin/env python3
 """usage: tools/snapshot_skeleton.py Cxx
 Copies lean/ClusterVerif/Gen/Cxx.lean (just regenerated from /repo) to lean/ClusterVerif/Model/CxxSource.lean under the
@@ -5,7 +6,8 @@ namespace CV.Cxx.Expected. Run it ONLY after re-reading the changed source again
 statement "this is the source text the model transcribes"; Props/Cxx.lean proves Gen = Expected by rfl on every run."""
 import re, sys
 pid = sys.argv[1]
-gen = open("/verif/lean/ClusterVerif/Gen/%s.lean" % pid).read()
+ROOT = os.path.dirname(os.path.dirname(os.path.abspath(__file__)))  # the checkout this script lives in (a builder worktree must not write into /verif)
+gen = open(os.path.join(ROOT, "lean/ClusterVerif/Gen/%s.lean" % pid)).read()
 body = gen.split("namespace CV.%s.Gen" % pid, 1)[1].rsplit("end CV.%s.Gen" % pid, 1)[0]
 names = []
 ns = []
@@ -28,6 +30,6 @@ namespace CV.%s.Expected
 %s
 end CV.%s.Expected
 """ % (pid, pid, pid, pid, pid, body.rstrip() + "\n", pid)
-open("/verif/lean/ClusterVerif/Model/%sSource.lean" % pid, "w").write(out)
+open(os.path.join(ROOT, "lean/ClusterVerif/Model/%sSource.lean" % pid), "w").write(out)
 thms = "\n".join("theorem gen_source_%s : Gen.%s = Expected.%s := rfl" % (n.replace(".", "_"), n, n) for n in names)
 print(thms)
